@@ -11,6 +11,10 @@ CHECKS = {
          "bounded-exhaustive enumeration of policies; each compiled filter is executed in a cBPF interpreter over struct seccomp_data on a closed input set (thorough: full 2^32 syscall-number and architecture-tag sweeps) against the reference policy semantics",
          "Every assignment {absent, allow, trace} of a 6-name (thorough: 8) syscall alphabet x 8 default-action values x both list orders, plus whole-table / alternating / shipped run-program policies that force the long-jump code paths, plus malformed policies that must be refused. The filter that Build() hands to the kernel (after ExportBPF, via SockFprog) is interpreted with kernel cBPF semantics on native-arch x {0..4095 (thorough 0..65535), every table number +-1 with and without bit 30 / bit 31, boundary values} and on 63 foreign/flipped architecture tags; thorough adds complete 2^32 syscall-number sweeps (6 policies x 3 tags) and complete 2^32 architecture sweeps.",
          "Trusted: /verif/cbpf interpreter (kernel classic-BPF semantics for the seccomp subset; a structural pass re-checks per program that only nr and arch are loaded, so ip/args cannot matter). For nr >= 2^31 with bit 30 clear the oracle accepts refusal or the default action (the dependency refuses everything >= 2^30, which is stricter than the property)."),
+ "C04": ("exploration",
+         "exhaustive enumeration of the launch-option lattice on real forkexec launches of a self-reporting probe; reference function options -> security state; namespace identities read from the host side",
+         "All 3x2^5 combinations of {credential (with groups / with empty groups / none), drop-caps, no-new-privs, seccomp filter, sync callback, unshare-cgroup-after-sync} x 6 namespace modes (none; user; pid+mnt+uts+ipc+net; user+those; those+pivot root; user+those+pivot root) x {no tracing, ptrace (the harness is the tracer and detaches), stop-before-seccomp}, with work dir and host/domain name requested whenever namespaces allow. The probe reports capability sets, securebits, no_new_privs, seccomp mode, uids/gids/groups, session, cwd, uname; the harness compares /proc/<pid>/ns/* with its own. The launching process is given supplementary groups so that inheriting them is visible.",
+         "Not exercised: CLONE_INTO_CGROUP (no cgroup v2 controllers here), CTTY. stop-before-seccomp together with a sync callback and no tracer cannot return from Start by design and is skipped. Kernel-rejected combinations are recorded as launch errors, not judged (C07 checks the error naming)."),
  "C06": ("exploration",
          "bounded-exhaustive enumeration of descriptor lists x ExecFile placement x socketpair placement x vfork/non-vfork on real launches of a self-reporting probe, each configuration started twice; identity oracle on (st_dev, st_ino)",
          "Every descriptor list of length <=3 (thorough: <=4) over {close marker, caller fds 0,1,2, reserved low fds, high fds, the ExecFile number} x ExecFile in {none, low, high} x internal socketpair landing inside or above the listed range x vfork / non-vfork, started twice from the same Runner value; the program (static C probe) reports every open descriptor with (dev, ino, cloexec); slot i must be the i-th listed open file, marker slots closed, nothing else open, Runner deep-equal before/after, second start identical. Plus container.Execve with Files/ExecFile lists (sync before/after exec).",
